@@ -45,12 +45,13 @@ CLAIMS = {
          "storage.Shrink's loops (time-boxed pass, remaining-work scan, convergence) are not under contract"),
  "C19": ("proof", "table.Stats/UpdateStats produce exactly size, capacity and the documented memory products and the in-place update equals the fresh computation; entityPool.Len equals the ghost live counter that Get increments and Recycle decrements (creations minus removals), Cap = used + recycled, TotalCap >= Cap.", "6 C19",
          "archetype.Stats/UpdateStats and World.Stats (sums over tables and archetypes) are not under contract"),
+ "C14": ("proof", "Schema-instantiated contracts (generated mechanically for every arity by tools/gen_arity_contracts.py, one statement per arity and type-parameter position) on the generic origin of the generated code: QueryN.setTable wires column pointer and item size number k to the column of component number k of the table (N = 1..8), QueryN.Get returns for position k exactly column pointer k advanced by cursor.index items of size k, NewMapN (N = 1..12) and NewFilterN (N = 1..8) take storage pointer number k from component id number k and build the mask that is exactly the set of their ids (newMask proved against the set view). These are the places where an untyped pointer, an item size or an id position can be mixed up without a compile error.", "6 C14",
+         "the generic origins are verified once with the type parameters instantiated by a fixed type (the code does not depend on them); ComponentID is trusted; that the k-th id is the id of the k-th type parameter (reflect.TypeFor) is not expressible; Map/Exchange operations delegate to World.add/remove/exchange (C01); the remaining generated methods (batch, observers, relations accessors) are not under contract"),
 }
 
 NA = {
  "C06": "not decided: the batch operations (exchangeBatch, setRelationsBatch, RemoveEntities, NewEntities and the *BatchFn wrappers) have 5-11 loops each over callees that are not yet under contract; only the lock balance of these functions (C07) and the relation predicate table.Matches are checked, which does not carry the property",
  "C11": "not decided: zeroing and GC-safe copying live in the data-plane functions (column.*, table.Remove/adjustCapacity, copyPtr/copyValue), which this family treats through trusted contracts; the bounded harness of DESIGN 4.1 that would check those contracts against the real bodies was not built, and collectability under a concurrent collector is a runtime property no contract expresses",
- "C14": "not decided: the ~650 generated methods need schema-instantiated contracts (DESIGN 6 C14) on top of contracts for the ID-based operations (add/remove/exchange/get), which are not yet under contract",
 }
 DEFAULT_NA = "check not built yet in this session (engine exists; contracts for the functions this property is anchored in are still to be written; see DESIGN.md section 8.3)"
 
